@@ -15,6 +15,7 @@ structure Opts where
   maxBatchCount : Nat := 0
   maxBatchSize : Nat := 0
   maxLevels : Nat := 7
+  nsOffset : Option Nat := none    -- `NamespaceOffset` (`none` = -1: namespaces off), see Namespace.lean
   deriving Repr, Inhabited
 
 /-- A `y.WaterMark` after its channel has been drained: begun indices with their pending
@@ -68,6 +69,7 @@ structure Db where
   lastCleanupTs : Nat := 0
   txns : List TxnM := []
   now : Nat := 0
+  banned : List Nat := []                    -- `bannedNamespaces` (Namespace.lean)
   deriving Repr, Inhabited
 
 def txnKeyLen : Nat := 11   -- len("!badger!txn")
@@ -109,13 +111,13 @@ def Db.discardTxn (d : Db) (id : Nat) : Db :=
 def estimateSize (threshold : Nat) (e : Ent) : Nat :=
   if e.val.length < threshold then e.key.length + e.val.length + 2 else e.key.length + 12 + 2
 
-inductive ModErr | readonly | discarded | emptykey | invalidkey | keytoobig | valtoobig | txntoobig
+inductive ModErr | readonly | discarded | emptykey | invalidkey | keytoobig | valtoobig | txntoobig | banned
   deriving Repr, DecidableEq
 
 def ModErr.str : ModErr → String
   | .readonly => "err:readonly" | .discarded => "err:discarded" | .emptykey => "err:emptykey"
   | .invalidkey => "err:invalidkey" | .keytoobig => "err:keytoobig" | .valtoobig => "err:valtoobig"
-  | .txntoobig => "err:txntoobig"
+  | .txntoobig => "err:txntoobig" | .banned => "err:banned"
 
 /-- `Txn.modify` (validation order as in the `switch`, then `checkSize`, then the pending map). -/
 def Db.modify (d : Db) (id : Nat) (e : Ent) : Db × Option ModErr :=
